@@ -361,7 +361,7 @@ def build(world):
 # generators
 
 SHAPES = ["single", "chain2", "chain3", "fork", "join", "diamond", "skip", "cond", "cond_uneven", "two_cond", "disconnected",
-          "uneven_join", "rand_dag", "rand_dag", "cond_elif"]
+          "uneven_join", "rand_dag", "rand_dag", "cond_elif", "cond3_zero"]
 
 
 def shape_jobs(shape, rnd, nprof):
@@ -416,6 +416,15 @@ def shape_jobs(shape, rnd, nprof):
             J("Y", ["T"], prob=0.5),
             J("Z", ["T"], prob=0.5),
             J("T", term=True),
+        ]
+    if shape == "cond3_zero":
+        # a three-way conditional with a disabled (probability 0) branch and no branch at 1.0
+        z = rnd.randrange(3)
+        pr = [0.5, 0.5]
+        pr.insert(z, 0.0)
+        return [
+            J("A", ["B", "C", "D"], cond=True), J("B", ["Jn"], prob=pr[0]), J("C", ["C2"], prob=pr[1]), J("C2", ["Jn"]),
+            J("D", ["Jn"], prob=pr[2]), J("Jn", ["K"], term=True), J("K"),
         ]
     if shape == "cond_elif":
         # if / else-if / else sharing ONE join, followed by another conditional
@@ -742,6 +751,28 @@ def directed_worlds():
         "pools": [[[I("gpu", "any", 1), I("cpu", "any", 1)]], [[I("gpu", "g0", 1), I("cpu", "c7", 2)]]],
         "sched": {"kind": "edf", "runtime": 0}, "flags": {"timeout": 2000, "expect_all_done": True}, "seed": 1,
     })
+    # two workers of one pool declare their resources under the SAME explicit ids (`gpu:0` on every machine, a wildcard
+    # cpu): pool-level totals / availability (WORKER_POOL_UTILIZATION rows) are sums over the workers, not unions
+    out.append({
+        "name": "same_resource_ids_across_workers",
+        "profiles": [{"name": "P0", "strats": [{"dem": [R("gpu", "any", 2)], "rt": 5, "bs": 1}]},
+                     {"name": "P1", "strats": [{"dem": [R("gpu", "any", 1), R("cpu", "any", 1)], "rt": 3, "bs": 1}]}],
+        "graphs": [{"name": "G0", "jobs": [{"name": "A", "profile": 0}, {"name": "B", "profile": 1}, {"name": "C", "profile": 1}],
+                    "policy": {"type": "fixed", "period": 2, "n": 4, "start": 0}, "dv": [0, 0]}],
+        "pools": [[[I("gpu", "0", 2), I("cpu", "any", 1)], [I("gpu", "0", 2), I("cpu", "any", 2)], [I("gpu", "0", 1), I("cpu", "c", 1)]]],
+        "sched": {"kind": "fifo", "runtime": 0}, "flags": {"timeout": 2000, "expect_all_done": True, "frequency": 3}, "seed": 1,
+    })
+    # preemptive EDF with deadline enforcement: Long (20us, deadline 22) is preempted by Urgent (5us, deadline 7) at t=2 and
+    # is hopeless when Urgent finishes: the policy answers the PREEMPTED task with a cancellation.  A task that has run is
+    # never cancelled (C06); the pinned tree refuses it by raising (recorded finding), it must not silently cancel it
+    out.append({
+        "name": "preempted_task_answered_with_cancel",
+        "profiles": [{"name": "PL", "strats": [{"dem": gpu1, "rt": 20, "bs": 1}]}, {"name": "PU", "strats": [{"dem": gpu1, "rt": 5, "bs": 1}]}],
+        "graphs": [{"name": "G0", "jobs": [{"name": "Long", "profile": 0}],
+                    "policy": {"type": "fixed", "period": 1, "n": 1, "start": 0}, "dv": [10, 10]},
+                   {"name": "G1", "jobs": [{"name": "Urgent", "profile": 1}], "policy": {"type": "fixed", "period": 1, "n": 1, "start": 2}, "dv": [100, 100]}],
+        "pools": one_gpu, "sched": {"kind": "edf", "runtime": 0, "enforce": True, "preemptive": True}, "flags": {"timeout": 200}, "seed": 1,
+    })
     # runtimes given in milliseconds (2 ms, 1 ms) next to a microsecond task: the long tasks are stepped in pieces by the
     # events of the short ones (releases every 300us) and must still hold their resources for exactly their runtime
     for nm, sched in (("ms_runtimes_edf", {"kind": "edf", "runtime": 0}), ("ms_runtimes_lsf_variance", {"kind": "lsf", "runtime": 0})):
@@ -755,6 +786,15 @@ def directed_worlds():
                        {"name": "G1", "jobs": [{"name": "C", "profile": 2}], "policy": {"type": "fixed", "period": 300, "n": 6, "start": 100}, "dv": [0, 0]}],
             "pools": [[[I("gpu", "g1", 2)]]], "sched": sched,
             "flags": {"timeout": 20000, "expect_all_done": True, "variance": 30 if "variance" in nm else 0}, "seed": 8,
+        })
+    # a three-way conditional with one disabled branch (probability 0, none at 1.0): exactly one of the other two runs,
+    # the join and everything after it run
+    for nm, sd_ in (("cond3_zero_first", 0), ("cond3_zero_mid", 1), ("cond3_zero_last", 5)):
+        cz = shape_jobs("cond3_zero", random.Random(sd_), 2)
+        out.append({
+            "name": nm, "profiles": [P(2), P(3)],
+            "graphs": [{"name": "G0", "jobs": cz, "policy": {"type": "fixed", "period": 4, "n": 4, "start": 0}, "dv": [0, 0]}],
+            "pools": [[[I("gpu", "g1", 2)]]], "sched": {"kind": "edf", "runtime": 0}, "flags": {"timeout": 600, "expect_all_done": True}, "seed": 11 + sd_,
         })
     # if / else-if / else with one shared join, then another conditional; resolved at submission (several invocations: the
     # alternating resolver takes different arms) and drawn at run time
